@@ -46,3 +46,27 @@ Theorem C19_projection_radius_100_and_gates : forall sph spatvol vn ts w ts', pr
   ((forall p, In p vn -> dot Rops p p <> 0) -> Forall (fun q => norm Rops q = 100) w).
 Proof. exact project_gates_ok. Qed.
 Print Assumptions C19_projection_radius_100_and_gates.
+
+(* ... and therefore the returned mesh has unit surface area and its centroid at the origin (whenever the last answer of the
+   solver spans a positive area) *)
+Theorem C19_flow_result_unit_area_centroid_origin : forall solve, solve_contract solve ->
+  forall v ts max_iter stop_eps step w ts', tris_in_range (length v) ts ->
+  mean_curvature_flow Rops solve v ts max_iter stop_eps step = Ok (w, ts') ->
+  exists X, w = normalize Rops X ts /\ length X = length v /\
+    (0 < total_area X ts -> area Rops w ts = 1 /\ centroid Rops w ts = ((0, 0, 0), 1)).
+Proof. exact flow_result_unit_area. Qed.
+Print Assumptions C19_flow_result_unit_area_centroid_origin.
+
+(* tria_spherical_project, from the eigenfunctions (an oracle's output) to the spectral embedding: every coordinate lies in
+   [-1, 1]; and after the sign choices each eigenfunction is positively aligned with its axis: the mean position of the vertices
+   where it is large lies at least as far along that axis (y for the first, z for the second, x for the third) as the mean
+   position of the vertices where it is small *)
+Theorem C19_embedding_in_unit_cube : forall v ev1 ev2 ev3 e, spectral_embedding Rops v ev1 ev2 ev3 = Ok e ->
+  Forall (fun p => -1 <= vx p <= 1 /\ -1 <= vy p <= 1 /\ -1 <= vz p <= 1) (em_vn e).
+Proof. exact embedding_in_cube. Qed.
+Print Assumptions C19_embedding_in_unit_cube.
+Theorem C19_embedding_axes_positively_aligned : forall v ev1 ev2 ev3 e, ev1 <> [] -> ev2 <> [] -> ev3 <> [] ->
+  spectral_embedding Rops v ev1 ev2 ev3 = Ok e ->
+  let '(a, b, c) := em_ev e in aligned v a 1 /\ aligned v b 2 /\ aligned v c 0.
+Proof. exact embedding_axes_aligned. Qed.
+Print Assumptions C19_embedding_axes_positively_aligned.
